@@ -36,6 +36,8 @@ impl<'a> Parser<'a> {
                 self.current_token
             )));
         }
+        #[cfg(feature = "verif_hooks")]
+        crate::verif_hooks::event_tree(&ast);
         Ok(ast)
     }
     fn get_next_token(&mut self) -> Result<(), ParseError> {
